@@ -1,0 +1,79 @@
+//go:build verif
+
+// Contracts for the deductive verifier in /verif (gocv). This file contains
+// comments only; it is compiled only with -tags verif and declares nothing.
+// Contracts are keyed by function, loop ordinal and call ordinal; see
+// /verif/DESIGN.md section 2.1 for the syntax.
+
+package leveldb
+
+// ---------------------------------------------------------------------------
+// Shared vocabulary: the user comparer as an uninterpreted total order on byte
+// sequences (the documented contract of comparer.Comparer).
+
+//@ spec func ucmp(a bytes, b bytes) int
+//@ axiom ucmp.refl:    forall x bytes :: ucmp(x, x) == 0
+//@ axiom ucmp.eq:      forall x, y bytes :: ucmp(x, y) == 0 ==> x == y
+//@ axiom ucmp.antisym: forall x, y bytes :: (ucmp(x, y) < 0 <==> ucmp(y, x) > 0)
+//@ axiom ucmp.trans:   forall x, y, z bytes :: ucmp(x, y) <= 0 && ucmp(y, z) <= 0 ==> ucmp(x, z) <= 0
+//@ axiom ucmp.transs:  forall x, y, z bytes :: ucmp(x, y) < 0 && ucmp(y, z) <= 0 ==> ucmp(x, z) < 0
+//@ axiom ucmp.transr:  forall x, y, z bytes :: ucmp(x, y) <= 0 && ucmp(y, z) < 0 ==> ucmp(x, z) < 0
+
+//@ interface comparer.Comparer.Compare
+//@   pure
+//@   ensures result == ucmp(a, b)
+
+//@ interface comparer.Comparer.Separator
+//@   requires len(dst) == 0
+//@   ensures isnil(result) || (ucmp(a, result) <= 0 && ucmp(result, b) < 0)
+//@   modifies nothing
+
+//@ interface comparer.Comparer.Successor
+//@   requires len(dst) == 0
+//@   ensures isnil(result) || ucmp(b, result) <= 0
+//@   modifies nothing
+
+// Internal keys: user key ++ 8 bytes little endian (seq<<8 | type).
+
+//@ spec func inum(k []byte) uint64 = le64(k, len(k)-8)
+//@ spec func icmp(a []byte, b []byte) int = ucmp(a[:len(a)-8], b[:len(b)-8]) != 0 ? ucmp(a[:len(a)-8], b[:len(b)-8]) : (inum(a) > inum(b) ? -1 : (inum(a) < inum(b) ? 1 : 0))
+
+//@ axiom global.keyMaxNumBytes: len(keyMaxNumBytes) == 8 && le64(keyMaxNumBytes, 0) == keyMaxNum
+
+// ---------------------------------------------------------------------------
+// key.go
+
+//@ func ensureBuffer
+//@   props C15
+//@   mode bv
+//@   safety on
+//@   requires n >= 0
+//@   ensures len(result) == n
+//@   ensures cap(old(b)) >= n ==> samebase(result, old(b))
+
+//@ func makeInternalKey
+//@   props C15 C20
+//@   mode bv
+//@   safety on
+//@   requires seq <= keyMaxSeq && kt <= 1
+//@   ensures len(result) == len(ukey) + 8
+//@   ensures [ukey-part] result[:len(ukey)] == old(ukey)
+//@   ensures [num-part] le64(result, len(ukey)) == (seq<<8 | uint64(kt))
+//@   ensures [kind] le64(result, len(ukey)) & 255 == uint64(kt)
+//@   ensures [seq] le64(result, len(ukey)) >> 8 == seq
+
+//@ func parseInternalKey
+//@   props C15
+//@   mode bv
+//@   safety on
+//@   ensures [err-iff] !isnil(err) <==> (len(ik) < 8 || (le64(ik, len(ik)-8) & 255) > 1)
+//@   ensures [ukey] isnil(err) ==> sameslice(ukey, ik[:len(ik)-8])
+//@   ensures [seq] isnil(err) ==> seq == le64(ik, len(ik)-8) >> 8
+//@   ensures [kind] isnil(err) ==> uint64(kt) == le64(ik, len(ik)-8) & 255
+
+//@ func (*iComparer).Compare
+//@   props C15 C01
+//@   mode bv
+//@   safety on
+//@   requires len(a) >= 8 && len(b) >= 8
+//@   ensures [icmp] result == icmp(a, b)
